@@ -152,7 +152,7 @@ func vuMax(n int) []byte {
 func binEdits(o *render.Out, r *prng.Rand) []edit {
 	var out []edit
 	d := o.Bytes
-	for _, s := range o.Sites {
+	for si, s := range o.Sites {
 		switch s.Kind {
 		case "tag":
 			t, l := byte(s.Aux>>8), byte(s.Aux&0xff)
@@ -189,6 +189,20 @@ func binEdits(o *render.Out, r *prng.Rand) []edit {
 				out = append(out, edit{"negative-zero-int", s.Off, s.Len, make([]byte, s.Len)})
 			}
 		case "ts-field":
+			if s.Aux == 7 && s.Len == 1 && si+1 < len(o.Sites) {
+				// fractional seconds that are not below one: exactly 1 (1d0, 10d-1, 100d-2 ...) and well above
+				if c := o.Sites[si+1]; c.Kind == "ts-field" && c.Aux == 8 && c.Off == s.Off+1 && c.Len >= 1 {
+					one := make([]byte, c.Len)
+					one[c.Len-1] = 1
+					out = append(out, edit{"timestamp-fraction-equals-one", s.Off, 1 + c.Len, append([]byte{0x80}, one...)})
+					ten := make([]byte, c.Len)
+					ten[c.Len-1] = 10
+					out = append(out, edit{"timestamp-fraction-equals-one", s.Off, 1 + c.Len, append([]byte{0xc1}, ten...)})
+					big := make([]byte, c.Len)
+					big[0] = 0x7f
+					out = append(out, edit{"timestamp-fraction-above-one", s.Off, 1 + c.Len, append([]byte{0xc1}, big...)})
+				}
+			}
 			if s.Len != 1 {
 				continue
 			}
@@ -271,6 +285,7 @@ func textEdits(o *render.Out, r *prng.Rand) []edit {
 			if s.Len >= 2 {
 				del("unterminated-string", end-1, 1)
 				ins("illegal-escape", s.Off+1, []string{`\q`, `\xZ1`, `\u12G4`, `\U00110000`, `\1`}[r.Intn(5)])
+				ins("escape-beyond-unicode", s.Off+1, []string{`\U00110000`, `\UFFFFFFFF`, `\U80000000`, `\U7FFFFFFF`, `\Uffff0041`, `\U0011FFFF`, `\UF0000000`}[r.Intn(7)])
 				if s.Aux == 0 {
 					ins("newline-in-string", s.Off+1, "\n")
 				}
@@ -279,12 +294,13 @@ func textEdits(o *render.Out, r *prng.Rand) []edit {
 		case "long-seg":
 			if s.Len >= 6 {
 				del("unterminated-long-string", end-3, 3)
-				ins("illegal-escape-in-long-string", s.Off+3, `\q`)
+				ins("illegal-escape-in-long-string", s.Off+3, []string{`\q`, `\UFFFFFFFF`, `\U80000041`, `\x4`}[r.Intn(4)]+" ")
 			}
 		case "qsymbol":
 			if s.Len >= 2 {
 				del("unterminated-quoted-symbol", end-1, 1)
 				ins("newline-in-quoted-symbol", s.Off+1, "\n")
+				ins("illegal-escape-in-quoted-symbol", s.Off+1, []string{`\q`, `\UFFFFFFFF`, `\U90000000`, `\U00110000`, `\u12G4`}[r.Intn(5)])
 			}
 		case "block-comment":
 			del("unterminated-block-comment", end-2, 2)
